@@ -19,8 +19,13 @@
      - pydicom's EncodeRunner.validate for the encapsulated syntaxes (third
        party, re-modelled because it decides accept/reject; cross-checked by
        the correspondence run).
-   NOT modelled (oracle premises of the theorems): the RLE / JPEG-LS /
-   JPEG 2000 / JPEG codecs themselves, pydicom's YBR_FULL->RGB conversion. *)
+     - pydicom's pure-Python RLE Lossless encoder and decoder (third party,
+       re-modelled so that the RLE round trip is a theorem; bytes and decoded
+       arrays are compared with the real codec on every run);
+     - decode_frame's entry-point validation for arbitrary parameters
+       ([decode_frame_model]).
+   NOT modelled (oracle premises of the theorems): the JPEG-LS / JPEG 2000 /
+   JPEG codecs themselves, pydicom's YBR_FULL->RGB conversion. *)
 From Coq Require Import String ZArith List Bool.
 From HD Require Import Base.Val.
 Import ListNotations.
@@ -747,3 +752,37 @@ Definition decode_any (codec_decode : params -> list Z -> res decoded)
   if is_native T p then decode_native p 0 value
   else if ts_eqb (p_ts p) TRLE then decode_rle p value
   else decode_encaps codec_decode p value.
+
+(* ------------------------------------------- decode_frame, the entry point *)
+(* frame.py:459-512 with ARBITRARY parameters (not only the ones the frame was
+   encoded with): the bit-packed native path looks at rows, columns, samples and
+   index only; every other path first converts pixel representation, photometric
+   interpretation and (for colour) planar configuration to their enumerations
+   (ValueError), then pydicom decodes; a native colour frame read with planar
+   configuration 1 is taken plane by plane *)
+Definition planar_read (n s : nat) (ws : list Z) : list Z :=
+  flat_map (fun i => map (fun smp => nth (smp * n + i) ws 0) (seq 0 s)) (seq 0 n).
+
+Definition decode_frame_model (p : params) (index : Z) (value : list Z) : res decoded :=
+  if is_native default_tables p && (p_balloc p =? 1) then
+    decode_bits (p_rows p) (p_cols p) (spp p) index value
+  else if negb ((p_pixrep p =? 0) || (p_pixrep p =? 1)) then Err EV
+  else if is_none (p_pi p) then Err EV
+  else if (1 <? spp p) && is_none (p_planar p) then Err EV
+  else if (1 <? spp p) && negb (optZ_eqb (p_planar p) 0 || optZ_eqb (p_planar p) 1) then Err EV
+  else if ts_eqb (p_ts p) TRLE then decode_rle p value
+  else
+    match decode_words p value with
+    | Ok (DArr sh vals) =>
+        if (1 <? spp p) && optZ_eqb (p_planar p) 1 && Nat.eqb (length sh) 3
+        then Ok (DArr sh (planar_read (Z.to_nat (p_rows p * p_cols p)) (Z.to_nat (spp p)) vals))
+        else Ok (DArr sh vals)
+    | r => r
+    end.
+
+(* encode with [p], decode the bytes with [q] (one parameter changed) *)
+Definition run_decode_params (p q : params) (f : list Z) : val :=
+  match (if ts_eqb (p_ts p) TRLE then encode_rle default_tables p f else encode_frame default_tables p f) with
+  | Err e => VErr e
+  | Ok bs => vdecoded (decode_frame_model q 0 bs)
+  end.
